@@ -40,12 +40,12 @@ var c08Exceptions = []c08Exception{
 		},
 	},
 	{
-		fn: "bech32.Decode", construct: "slice bech32.toBytes(strings.ToLower(…)[(strings.LastIndexByte(…,…)+1):])#0[:(len(bech32.toBytes(…)#0)-6)]",
+		fn: "bech32.Decode", construct: "slice bech32.toBytes(*", // however the argument is spelled: the premise does the work
 		reason:  "toBytes returns one byte per input character on success (loop-count fact outside the prover's domain)",
 		premise: bech32DataLenPremise,
 	},
 	{
-		fn: "bech32.Decode", construct: "slice bech32.toBytes(strings.ToLower(…)[(strings.LastIndexByte(…,…)+1):])#0[:(len(bech32.toBytes(…)#0)-6)] #2",
+		fn: "bech32.Decode", construct: "slice bech32.toBytes(*", // (the second slice of the same value; the premise identifies it)
 		reason:  "toBytes returns one byte per input character on success (loop-count fact outside the prover's domain)",
 		premise: bech32DataLenPremise,
 	},
